@@ -32,11 +32,15 @@ pub struct Recorder {
     timedout: bool,
     /// per task: object the current call chain works on
     inhand: Vec<u32>,
+    /// per task: idle objects rejected (by injected failures) during the current get
+    nrej: Vec<usize>,
     close_ret: bool,
     /// per task: the operation in progress
     op: Vec<&'static str>,
     arg: Vec<usize>,
     mode: Vec<String>,
+    cto: Vec<String>,
+    rto: Vec<String>,
     late: Vec<bool>,
     /// per task: steps (calls) the object in hand has passed in this get
     chain: Vec<Vec<String>>,
@@ -65,10 +69,13 @@ impl Recorder {
             usedrt: false,
             timedout: false,
             inhand: vec![],
+            nrej: vec![],
             close_ret: false,
             op: vec![],
             arg: vec![],
             mode: vec![],
+            cto: vec![],
+            rto: vec![],
             late: vec![],
             chain: vec![],
             cause: vec![],
@@ -92,9 +99,12 @@ impl Recorder {
         self.timedout = false;
         self.close_ret = false;
         self.inhand = vec![0; n];
+        self.nrej = vec![0; n];
         self.op = vec!["none"; n];
         self.arg = vec![0; n];
         self.mode = vec![String::new(); n];
+        self.cto = vec![String::new(); n];
+        self.rto = vec![String::new(); n];
         self.late = vec![false; n];
         self.chain = vec![vec![]; n];
         self.cause = vec!["none"; n];
@@ -164,7 +174,7 @@ impl Recorder {
             "chain": [], "late": false, "cause": "none", "mode": "-",
             "rrc": 0, "rho": 0, "rrec": false, "rrejected": false,
             "callk": "-", "callobj": 0, "callrc": 0, "callho": 0, "refqlen": -1, "expectpop": 0,
-            "retained": 0, "removed": [], "keep": [], "idlebefore": [],
+            "retained": 0, "removed": [], "keep": [], "idlebefore": [], "nrej": 0,
             "solo": false, "b_size": 0, "b_avail": 0, "b_wait": 0, "b_max": 0, "b_live": 0, "b_permits": 0,
             "permits": s.permits,
             "probe_got": -1, "probe_extra": "-", "stranded": 0,
@@ -191,9 +201,12 @@ impl Recorder {
             "StartGet" => {
                 self.op[t] = "get";
                 self.mode[t] = st.x.first().and_then(|v| v.as_str()).unwrap_or("bl").to_string();
+                self.cto[t] = st.x.get(1).and_then(|v| v.as_str()).unwrap_or("none").to_string();
+                self.rto[t] = st.x.get(2).and_then(|v| v.as_str()).unwrap_or("none").to_string();
                 self.late[t] = self.close_ret;
                 self.chain[t].clear();
                 self.cause[t] = "none";
+                self.nrej[t] = 0;
             }
             "StartReturn" => {
                 self.op[t] = "return";
@@ -283,16 +296,17 @@ impl Recorder {
                 }
                 if out == "susp" && w.cfg.has_runtime {
                     if let Some(TState::AtCall { kind, .. }) = before {
-                        if *kind == CallKind::Create && w.cfg.create_to == "zero" {
+                        if *kind == CallKind::Create && self.cto[t] == "zero" {
                             self.cause[t] = "create_timeout";
                             self.timedout = true;
                         }
-                        if *kind == CallKind::Recycle && w.cfg.recycle_to == "zero" {
+                        if *kind == CallKind::Recycle && self.rto[t] == "zero" {
                             self.timedout = true;
                             self.chain[t].clear();
                             let o = self.inhand[t];
                             if o > 0 {
                                 self.rejected.insert(o);
+                                self.nrej[t] += 1;
                             }
                         }
                     }
@@ -374,6 +388,7 @@ impl Recorder {
                 };
                 if objid > 0 {
                     self.rejected.insert(objid);
+                    self.nrej[t] += 1;
                 }
             }
         }
@@ -409,6 +424,7 @@ impl Recorder {
             e["result"] = json!(r.spec_name());
             e["late"] = json!(self.late[t]);
             e["cause"] = json!(self.cause[t]);
+            e["nrej"] = json!(self.nrej[t]);
             match &r {
                 OpResult::GetOk { obj, rc, rec } => {
                     e["robj"] = json!(obj);
@@ -590,7 +606,7 @@ pub fn drain_and_probe(w: &mut World, rec: &mut Recorder) {
     let max = pool.status().max_size;
     let waker = Waker::from(Arc::new(Noop));
     let mut cx = Context::from_waker(&waker);
-    let to = timeouts_for(&Cfg { create_to: "none".into(), recycle_to: "none".into(), ..w.cfg.clone() }, "nb");
+    let to = timeouts_for("nb", "none", "none");
     let mut got: Vec<Object<Mgr>> = vec![];
     let mut extra = String::from("-");
     let limit = max.max(w.cfg.init_max) + 3;
